@@ -177,6 +177,15 @@ func polyL() []v2.Vec {
 	return pts(0, 0, 4, 0, 4, 1, 1, 1, 1, 3, 0, 3)
 }
 
+// scalePts multiplies every coordinate by k.
+func scalePts(p []v2.Vec, k float64) []v2.Vec {
+	for i := range p {
+		p[i].X *= k
+		p[i].Y *= k
+	}
+	return p
+}
+
 // polyRectCollinear is a 4x2 rectangle with extra collinear vertices on its sides.
 func polyRectCollinear() []v2.Vec {
 	return pts(0, 0, 1, 0, 2, 0, 4, 0, 4, 1, 4, 2, 2, 2, 0, 2, 0, 1)
